@@ -135,6 +135,29 @@ def variant_constructors(ctx):
                 key = "text" if k == "string_value" and fn in ("from_int", "from_float", "from_bool") else k
                 ctx.violation("variant/%s/%s" % (fn, key), ctx.where("function::Variant::" + fn),
                               "Variant::%s(%r) sets %s to `%s`, expected `%s`" % (fn, value, k, g, v))
+    # with_sign: a leading minus negates the value in its own type (an integer as an integer, a float as a float - no
+    # truncation -, a text gets the sign in front), and no minus leaves the value alone
+    ws = "function::Variant::with_sign"
+    if ws in ctx.prog.fns:
+        wh = ctx.prog.hir(ws)
+        wps = ctx.prog.fns[ws]["params"]
+        for fn, value, want_text, want_ty in (("from_int", 7, "-7", "Int"), ("from_int", -3, "3", "Int"), ("from_float", 2.5, "-2.5", "Float"),
+                                              ("from_float", -0.75, "0.75", "Float"), ("from_float", 8.0, "-8", "Float"), ("from_string", "abc", "-abc", "String")):
+            try:
+                base = build(fn, value)
+                keep = interp.Interp(call=call, prog=ctx.prog).run(wh, {wps[0]["id"]: dict(base), wps[1]["id"]: False})
+                neg = interp.Interp(call=call, prog=ctx.prog).run(wh, {wps[0]["id"]: dict(base), wps[1]["id"]: True})
+            except interp.Undecided as e:
+                ctx.violation("variant/with_sign/shape", ctx.where(ws), "cannot evaluate Variant::with_sign on %s(%r): %s" % (fn, value, e))
+                break
+            n += 1
+            ty = neg.get("value_type").name.split("::")[-1] if isinstance(neg, dict) and isinstance(neg.get("value_type"), interp.V) else None
+            ok = isinstance(neg, dict) and neg.get("string_value") == want_text and ty == want_ty and isinstance(keep, dict) and keep.get("string_value") == base.get("string_value")
+            ctx.obligation(ok)
+            if not ok:
+                ctx.violation("variant/with_sign/%s" % want_ty, ctx.where(ws),
+                              "a leading minus on %s(%r) gives `%s` of type %s, expected `%s` of type %s (the value negated in its own type, nothing truncated)" %
+                              (fn, value, neg.get("string_value") if isinstance(neg, dict) else neg, ty, want_text, want_ty))
     # coercions: own slot first, then the other slot, then the text (number, size literal), else zero / false
     tbl = variant_coercion_table(ctx)
     for fn, res in tbl.items():
@@ -386,8 +409,30 @@ def lexer_classes(ctx):
             asg.setdefault(x["l"]["name"], []).append(x)
     checks = {
         "after_operator": lambda xs: len(xs) == 1 and "Lexem::Operator" in " ".join(render_pat(p) for y in walk(xs[0]["r"]) if y["k"] == "Match" for a in y["arms"] for p in pat_alts(a["pat"])),
-        "after_open": lambda xs: len(xs) == 1 and render(xs[0]["r"]).replace(" ", "") == "(mode==LexingMode::Open)",
     }
+    # after_open = "the lexem just started is an opening bracket", of either style: the block holding the assignment (the
+    # dispatch on the first character of a lexem followed by the flag update) is evaluated for every first character
+    ao = asg.get("after_open", [])
+    okao, whyao = len(ao) == 1, "%d assignments" % len(ao)
+    if okao:
+        chain = path_to(nh, ao[0]) or []
+        blk = next((a for a, _k in reversed(chain) if a["k"] == "Block"), None)
+        nl = Locals(nh)
+        cvar = next((y.get("name") for y in walk_exprs(blk) if y["k"] == "Path" and y.get("rk") == "Local" and str(y.get("ty", "")) in ("char", "&char")), "c") if blk else "c"
+        for ch in "({)},x'+=":
+            selfv = {"before_from": True, "after_where": False, "after_open": False, "after_operator": False, "possible_search_root": False,
+                     "char_index": 0, "input_index": 0, "input": ["ab"]}
+            try:
+                interp.eval_in(nh, blk, {"self": selfv, cvar: ch, "s": "", "mode": interp.V("LexingMode::Undefined")}, prog=ctx.prog)
+            except interp.Undecided as e:
+                okao, whyao = False, "cannot evaluate the first-character dispatch for `%s`: %s" % (ch, e)
+                break
+            if selfv["after_open"] != (ch in "({"):
+                okao, whyao = False, "after the first character `%s` after_open is %s" % (ch, selfv["after_open"])
+                break
+    ctx.obligation(okao)
+    if not okao:
+        ctx.violation("lexer/flag/after_open", ctx.where("lexer::Lexer::next_lexem"), "the lexer context flag after_open is not maintained as `the previous lexem was an opening bracket ( or {`: %s" % whyao)
     for fl, pred in checks.items():
         ok = pred(asg.get(fl, []))
         ctx.obligation(ok)
@@ -744,6 +789,23 @@ def wbuf_total(ctx):
     if not ok:
         ctx.violation("wbuf/partial", ctx.where(name), "WritableBuffer::write must append the whole chunk unconditionally and report its length; returns `%s`" % r)
     ctx.covered("WritableBuffer::write is total and appends the whole chunk", 2, distinct_keys=["rejects", "partial"])
+    # a rendered row goes to standard output whole: `Write::write` may accept a prefix only (the line-buffered stdout does, after
+    # a newline), so a direct `.write(bytes)` on standard output, whose count nobody loops on, drops the rest of the row
+    n_w = 0
+    for fname in sorted(ctx.prog.fns):
+        if not (fname.startswith("searcher::") or fname.startswith("output::") or fname in ("exec_search", "main")) or "{closure" in fname:
+            continue
+        fh = ctx.prog.hir(fname)
+        if fh is None:
+            continue
+        for c in walk_exprs(fh):
+            if c["k"] == "MCall" and c["m"] == "write" and "io::Write" in str(c.get("callee", "")) + "io::Write" and \
+                    ("stdout" in render(c["recv"]) or "Stdout" in str(c["recv"].get("ty", ""))):
+                n_w += 1
+                ctx.obligation(False)
+                ctx.violation("stdout/partial-write/%s" % short(fname, 1), ctx.where(fname, c),
+                              "`%s` hands a row to standard output with Write::write, which may take only a prefix (its count is not looped on): use write_all / write!" % render(c)[:70])
+    ctx.covered("direct Write::write calls on standard output (expected none)", max(n_w, 1), distinct_keys=["stdout-write:%d" % n_w])
 
 
 
